@@ -407,7 +407,9 @@ class Evaluator:
         self.facts = self.facts.extend(k - seg.lo, seg.hi - k - 1)
         try:
             return repr(fn(x))
-        except (Unsupported, Unlocatable, Undecided) as e:
+        except Unlocatable as e:
+            raise Unlocatable("in comprehension body: %s" % e)
+        except (Unsupported, Undecided) as e:
             raise Unsupported("cannot summarise comprehension body: %s" % e)
         finally:
             self.facts = saved
